@@ -45,9 +45,18 @@ mod imp {
     impl ToCell for usize {
         fn cell(&self) -> Cell { Cell::Int(*self as i128) }
     }
+    /// an optional value must use the canonical null: `Some(NaN)` (or `Some(None)`) is reported as an Err cell,
+    /// which matches nothing (C08_output_encoding: null goes to None)
     impl<X: ToCell> ToCell for Option<X> {
         fn cell(&self) -> Cell {
-            match self { Some(v) => v.cell(), None => Cell::Null }
+            match self {
+                Some(v) => match v.cell() {
+                    Cell::F(x) if x.is_nan() => Cell::Err,
+                    Cell::Null => Cell::Err,
+                    c => c,
+                },
+                None => Cell::Null,
+            }
         }
     }
     fn cells<X: ToCell>(v: &[X]) -> Vec<Cell> {
